@@ -64,8 +64,44 @@ func rootRadicands(r *rng, deg int, count int, tier string) []radicand {
 		add("tenpow", tj, one)
 		add("teninv", one, tj)
 	}
+	// machine-word boundaries, always present: denominators of every bit length 50..65 (a word-sized
+	// fast path for the long division would have its overflow boundary here: the running remainder
+	// times the base must fit), numerator just below / far below / above the denominator
+	for bits := 50; bits <= 65; bits++ {
+		d := new(big.Int).Lsh(big.NewInt(1), uint(bits-1))
+		d.Add(d, new(big.Int).Rsh(new(big.Int).SetUint64(r.next()), uint(65-bits)))
+		d.SetBit(d, bits-1, 1)
+		d.SetBit(d, 0, 1)
+		nearTop := new(big.Int).Sub(new(big.Int).Lsh(big.NewInt(1), uint(bits)), big.NewInt(int64(1+r.intn(1000))))
+		add("wordsize", new(big.Int).Sub(d, big.NewInt(int64(1+r.intn(9)))), d)                           // remainder ≈ denominator
+		add("wordsize", new(big.Int).Rsh(new(big.Int).Mul(d, big.NewInt(int64(2+r.intn(7)))), 3), nearTop) // mid-size remainders, denominator 2^bits - c
+		add("wordsize", big.NewInt(int64(1+r.intn(50))), d)
+	}
 	for len(out) < count {
-		switch r.intn(12) {
+		switch r.intn(14) {
+		case 12, 13: // machine-word boundaries: numerator and denominator with uniformly drawn bit lengths
+			// around 31/32/53..64 bits (word-sized fast paths, float conversions), random or 2^k±c
+			word := func() *big.Int {
+				bits := r.pick([]int{30, 31, 32, 33, 52, 53, 54, 55, 56, 57, 58, 59, 60, 61, 62, 63, 64, 65, 70})
+				x := new(big.Int).Lsh(big.NewInt(1), uint(bits-1))
+				switch r.intn(4) {
+				case 0:
+					x.Add(x, big.NewInt(int64(r.intn(5))))
+				case 1:
+					x.Lsh(x, 1).Sub(x, big.NewInt(int64(1+r.intn(5))))
+				default:
+					x.Add(x, new(big.Int).Rsh(new(big.Int).SetUint64(r.next()), uint(65-bits)%64))
+				}
+				return x
+			}
+			n, d := word(), word()
+			switch r.intn(4) {
+			case 0:
+				n = big.NewInt(int64(1 + r.intn(1000)))
+			case 1:
+				d = big.NewInt(int64(1 + r.intn(1000)))
+			}
+			add("wordsize", n, d)
 		case 0: // small fractions
 			add("smallfrac", big.NewInt(int64(1+r.intn(300))), big.NewInt(int64(1+r.intn(300))))
 		case 1: // perfect powers and neighbours
@@ -209,7 +245,7 @@ func emitRootLine(e *emitter, v, deg int, ctor string, rd radicand, k int, scale
 }
 
 func genRoots(e *emitter, r *rng, tier string, degs []int) {
-	count := 220
+	count := 290
 	if tier == "thorough" {
 		count = 1500
 	}
